@@ -187,7 +187,10 @@ def run(ctx):
                         "tensor it was handed in its state"]
     cases = {}
     steps = {}
-    for cfg in (("BeamSearch_quick.cfg" if ctx.quick else "BeamSearch_thorough.cfg"), "BeamSearch_ties.cfg", "BeamSearch_fused.cfg"):
+    # thorough: V = 2 up to 5 steps and V = 3 up to 4 steps in two runs (V = 3 with 5 steps and widths beyond the 243
+    # paths multiplied the tie resolutions beyond an hour of TLC)
+    for cfg in (("BeamSearch_quick.cfg",) if ctx.quick else ("BeamSearch_thorough_a.cfg", "BeamSearch_thorough_b.cfg")) + (
+            "BeamSearch_ties.cfg", "BeamSearch_fused.cfg"):
         res = tlc.run(MOD, os.path.join(SPECS, cfg), workers=16, timeout=3000)
         tlc.require_ok(res, "BeamSearch/" + cfg)
         tlc.require_covered(res, ["Extend", "Stop"], "BeamSearch/" + cfg)
